@@ -14,7 +14,11 @@ if os.path.exists(os.path.join(V, 'tools', 'na.json')):
     na_reasons = json.load(open(os.path.join(V, 'tools', 'na.json')))
 
 TRUST = ("Trusted base: go/types, go/ssa and callgraph/vta of golang.org/x/tools v0.29.0 (vendored); the rule code in /verif/checker; "
-         "documented behaviour of the standard library and bitset (leaves); filebuffer analysed from the module cache. ")
+         "documented behaviour of the standard library and bitset (leaves); filebuffer analysed from the module cache. "
+         "Before the rules run the tree is normalised against the reference inventory (checker/inventory.txt, checker/refsrc): renamed functions/fields/constants are resolved, "
+         "functions that are new are expanded in place at their call sites, and an anchored function that was inlined and deleted is put back when the callers prove canonically equal "
+         "to their reference text with it expanded (DESIGN.md 10.6); what was done is written to the evidence notes. The thorough tier also re-runs the rules under linux/386, darwin/arm64 "
+         "and -tags tools, on the seeded-variant corpus (must be reported) and on behaviour-preserving refactorings and syntactic rewrites (must stay silent). ")
 checks = []
 for i in ids:
     if i not in claimed:
@@ -39,7 +43,7 @@ m = {
               "baseline_off_cmd": "cd /repo && go test -mod=mod -vet=off -count=1 -timeout 25m ./...",
               "source_commits": [], "add_only": True},
     "engines": [{"name": "wtcheck", "path": "/verif/checker", "serves_properties": sorted(claimed),
-                 "kind_free_text": "repository-specific static analyser (go/packages + go/types + go/ssa + VTA call graph): who-may-call, must-pass-through, return classification, truth tables over abstract cases, codec cursor analysis, range/taint, effects, nil-contract, set agreement"}],
+                 "kind_free_text": "repository-specific static analyser (go/packages + go/types + go/ssa + VTA call graph): who-may-call, must-pass-through, return classification, truth tables and decision diagrams over abstract cases, codec cursor analysis, range/taint, effects, nil-contract, set agreement; source-level normalisation (helper expansion, rename resolution, re-outlining by canonical equality)"}],
     "checks": checks,
     "notes": "All claims are level 'other': each check decides named structural clauses (necessary conditions) of its property on every path of the current source; value clauses are listed as not decided in DESIGN.md section 5. Known findings: /verif/KNOWN_FINDINGS.txt.",
     "not_applicable": [{"property_id": i, "reason": na_reasons.get(i, NA_DEFAULT)} for i in ids if i not in claimed],
